@@ -14,7 +14,7 @@ from . import engine, gen, lang, lib, obs, runner, sched, shrink
 from .engine import is_object_slot
 
 PROP = "C01"
-CONFIGS = [("seq", 0.55), ("seq-fault", 0.2), ("thr", 0.25)]
+CONFIGS = [("seq", 0.5), ("seq-fault", 0.2), ("thr", 0.18), ("thr-contend", 0.12)]
 
 
 # ------------------------------------------------------------------ program construction
@@ -201,8 +201,13 @@ def plan_sim(program, knobs, rng, config, op_len):
 def run_sim(program, share_tables, plan, trace=None, rng=None):
     dec = sched.ReplayDecider(trace) if trace is not None else sched.RandomDecider(rng, plan["mean_q"])
     assign = {int(k): v for k, v in plan["assign"].items()}
+    env0 = None
+    if plan.get("start"):
+        # everything before `start` is executed sequentially; only the tail is simulated (contention phase)
+        env0 = engine.execute(program[: plan["start"]], share_tables=share_tables)
     sim = sched.Sim(program, assign, dec, share_tables=share_tables, gran=plan["gran"],
-                    faults=[dict(f) for f in plan["faults"]], stall=dict(plan["stall"]) if plan["stall"] else None)
+                    faults=[dict(f) for f in plan["faults"]], stall=dict(plan["stall"]) if plan["stall"] else None,
+                    env=env0)
     env = sim.run()
     return env, sim, dec.trace
 
@@ -246,10 +251,44 @@ def one_run(seed, run, force_config=None, overrides=None, max_diag=3):
     res["methods"] = dict(meth)
 
     plan = trace = None
-    if not config.startswith("seq") or config == "seq-fault":
+    n0 = None
+    if config == "thr-contend":
+        # contention phase: 2-4 sibling builder calls on ONE shared receiver, one actor each, all enabled at the
+        # same instant, tiny quanta - the history in which a check-then-act window inside a builder is hit
+        n0 = len(program)
+        ri = g.pick_receiver()
+        k = 0
+        if ri is not None:
+            v = g.deref(ri)
+            ms = g.methods_of(v)
+            if ms and not g.is_mutable(v):
+                m0 = g.pick_method(v, ms)
+                for _ in range(rng.randint(2, 4)):
+                    m = m0 if rng.random() < 0.7 else g.pick_method(v, ms)
+                    i = g.g_call(ri, m)
+                    if i is None:
+                        continue
+                    before = alias_snapshot(env, program[i])
+                    env.heap.append(engine.exec_op(env, program[i]))
+                    if alias_changed(env, before):
+                        res["discard"] = "autoalias on a shared object"
+                        return res, program
+                    k += 1
+        if k < 2:
+            config = res["config"] = "thr"
+            n0 = None
+        else:
+            res["nops"] = len(program)
+            nact = k
+            plan = {"gran": "LINE" if rng.random() < 0.7 else "INSTRUCTION", "faults": [], "stall": None,
+                    "assign": {i: (i - n0 if i >= n0 else 0) for i in range(len(program))},
+                    "mean_q": rng.choice([1, 1, 2, 3, 5]), "start": n0}
+            env, sim, trace = run_sim(program, st, plan, rng=rng)
+    if config in ("thr", "seq-fault"):
         op_len, msim = sched.measure(program, st)
         plan = plan_sim(program, knobs, rng, config, op_len)
         env, sim, trace = run_sim(program, st, plan, rng=rng)
+    if plan is not None:
         res["steps"] = sim.clock
         res["switches"] = sim.switches
         res["fired"] = dict(sim.fired)
@@ -257,6 +296,7 @@ def one_run(seed, run, force_config=None, overrides=None, max_diag=3):
         res["schedule_hash"] = "%016x" % sim.hash
         res["preempt_in_lib"] = getattr(sim, "preempt_in_lib", 0)
         res["skipped_after_fault"] = sum(1 for v in env.heap if isinstance(v, lang.Skipped))
+        res["shape"] = runner.shape_of(program)
 
     bad, n_obs, trail = check_slots(program, env, st, okw)
     res["n_obs"] = n_obs
@@ -301,7 +341,7 @@ def one_run(seed, run, force_config=None, overrides=None, max_diag=3):
             }
         else:
             vlabel = receiver_label(program, env, victim)
-            kind = "thread" if config == "thr" else "fault"
+            kind = "thread" if config.startswith("thr") else "fault"
             culprit = ""
             if config == "seq-fault":
                 culprit = "+".join(sorted({receiver_label(program, env, f["op"]) for f in plan["faults"]}))
